@@ -1,5 +1,4 @@
-/- Helper lemmas for C15 (not property statements): the executable case model only produces clean traces
-   outside the exclusion. Core-only. -/
+/- Helper lemmas for C15 (not property statements): the executable case model only produces clean traces. Core-only. -/
 import KinModel.Conc
 import KinModel.ConcCase
 namespace KinModel.Conc
@@ -19,13 +18,13 @@ theorem small_not_cache (c : CaseM) (x : Nat) (h : x < 10) : (caseCfg c).cache.c
 theorem small_not_mem (c : CaseM) (x : Nat) (h : x < 10) : x ∉ (caseCfg c).cache := fun hm => by
   have := cache_cell_ge c x hm; omega
 
-theorem opActs_clean (c : CaseM) (tid : Nat) (o : OpM) (ho : o ∈ c.ops) (hx : opExcl o = false)
-    (hxt : opExclT o = false) : ∀ a ∈ opActs tid o, cleanAct (caseCfg c) a = true := by
+theorem opActs_clean (c : CaseM) (tid : Nat) (o : OpM) (ho : o ∈ c.ops) :
+    ∀ a ∈ opActs tid o, cleanAct (caseCfg c) a = true := by
   intro a ha
   have rd : ∀ x : Nat, x < 10 → cleanAct (caseCfg c) (.read x) = true := by
     intro x hlt; simp [cleanAct, small_not_mem c x hlt]
-  simp only [opActs, hx, hxt, List.mem_append] at ha
-  rcases ha with ((((((ha | ha) | ha) | ha) | ha) | ha) | ha) | ha
+  simp only [opActs, List.mem_append] at ha
+  rcases ha with ((((ha | ha) | ha) | ha) | ha) | ha
   · simp only [List.mem_singleton] at ha; subst ha; exact rd 0 (by omega)
   · split at ha
     · simp only [List.mem_singleton] at ha; subst ha; exact rd 1 (by omega)
@@ -52,8 +51,6 @@ theorem opActs_clean (c : CaseM) (tid : Nat) (o : OpM) (ho : o ∈ c.ops) (hx : 
   · split at ha
     · simp only [List.mem_singleton] at ha; subst ha; exact rd 3 (by omega)
     · simp at ha
-  · simp at ha
-  · simp at ha
 
 /-- all actions of all live threads satisfy P -/
 def AllActs (P : Act → Prop) (live : List (Nat × List Act)) : Prop := ∀ t ∈ live, ∀ a ∈ t.2, P a
@@ -124,7 +121,7 @@ theorem schedule_all (P : Act → Prop) : ∀ (fuel seed : Nat) (live : List (Na
       · exact hy
       · exact schedule_all P fuel (nextSeed seed) live' hl' x hx
 
-theorem caseTrace_clean (c : CaseM) (hx : Excl c = false) : CleanTrace (caseCfg c) (caseTrace c) := by
+theorem caseTrace_clean (c : CaseM) : CleanTrace (caseCfg c) (caseTrace c) := by
   intro x hmem
   refine schedule_all (fun a => cleanAct (caseCfg c) a = true) _ _ _ ?_ x hmem
   intro t ht a ha
@@ -138,17 +135,7 @@ theorem caseTrace_clean (c : CaseM) (hx : Excl c = false) : CleanTrace (caseCfg 
   | some o =>
     simp only [hget] at ha
     have ho : o ∈ c.ops := List.mem_of_getElem? hget
-    have hx' : ExclSharedDefault c = false ∧ ExclTypeInfo c = false := by
-      simpa [Excl, Bool.or_eq_false_iff] using hx
-    have hxo : opExcl o = false := by
-      have := hx'.1
-      simp only [ExclSharedDefault, List.any_eq_false] at this
-      simpa using this o ho
-    have hxt : opExclT o = false := by
-      have := hx'.2
-      simp only [ExclTypeInfo, List.any_eq_false] at this
-      simpa using this o ho
-    exact opActs_clean c j o ho hxo hxt a ha
+    exact opActs_clean c j o ho a ha
 
 theorem sigma0_lazy (c : CaseM) : LazyInit (caseCfg c) sigma0 := by
   intro x hx
